@@ -142,7 +142,7 @@ def run(run):
     run.native('dev')
     XP.run_translator_validation(run, PROG, every=8 if run.tier == 'quick' else 1)
     quick = run.tier == 'quick'; dl = run.deadline
-    A = 2 if quick else 3
+    A = 2 if quick else 4
     U = FJ.universes(A)
     jobs = []
     for name, lists in U.items():
@@ -151,7 +151,7 @@ def run(run):
     big = [j for j in jobs if max(len(l) for l in j[2]) > 60]
     for j in big:
         jobs.remove(j); name, lists = j[1], j[2]
-        k = max(range(len(lists)), key=lambda i: len(lists[i])); opts = lists[k]; nsh = 12
+        k = max(range(len(lists)), key=lambda i: len(lists[i])); opts = lists[k]; nsh = 12 if quick else 48
         for sh in range(nsh):
             sub = opts[sh::nsh]
             if sub: jobs.append(('call', name, lists[:k] + [sub] + lists[k + 1:], dl, None))
